@@ -396,7 +396,112 @@ _limit = Contract(
     notes='the cap value 300 is the one the property\'s anchor names; re-tuning it is reported',
 )
 
-CONTRACTS = [_push, _pop, _wrapper, _exec_allowed, _goto_import, _memo, _limit]
+# ------------------------------------------------------------------ memoised generators (py__mro__): jedi/inference/cache.py
+def _region_gen_step(func):
+    """one round of the `while True` loop of the memoising generator wrapper"""
+    for s_ in ast.walk(func):
+        if isinstance(s_, ast.While):
+            return s_.body
+    return None
+
+
+def _next_of_generator(V, st, self_val, args, kwargs, node):
+    """next(actual_generator, None): the shared generator produces its next element (or None at its end). While it
+    runs, other consumers - and the generator itself through a definition cycle - may read the shared list: the
+    obligation is that the list then ENDS WITH THE RECURSION SENTINEL"""
+    from pyvc.values import fresh
+    from pyvc.calls import add_effect
+    g = V.eval_spec_bool('len(cached_lst) >= 1 and cached_lst[-1] is _RECURSION_SENTINEL', st)
+    V.oblige(st, g, 'call-pre', 'the recursion sentinel is the last cached element while the generator computes its next '
+                                'element (a re-entrant consumer stops there)', node)
+    add_effect(V, st, 'advance-generator', node)
+    r = fresh(Opt(ANY), 'produced')
+    # the sentinel is a private object of jedi.inference.cache: no generator can produce it
+    st.env['__produced'] = r
+    st.fact(V.eval_spec_bool('__produced is None or the(__produced) is not _RECURSION_SENTINEL', st))
+    st.env.pop('__produced', None)
+    return r
+
+
+def _replay_gen_cache(inp):
+    """the real memoising generator decorator: consumers that interleave (one suspended while another finishes), and a
+    generator that asks for itself"""
+    from pyvc.replay import run_real
+    from jedi.inference.cache import inference_state_method_generator_cache
+
+    class IS:
+        pass
+
+    class Obj:
+        pass
+
+    def scenario():
+        o = Obj()
+        o.inference_state = IS()
+        o.inference_state.memoize_cache = {}
+        produced = []
+
+        @inference_state_method_generator_cache()
+        def gen(obj):
+            for k in range(4):
+                produced.append(k)
+                yield 'e%d' % k
+        a = gen(o)
+        first = [next(a), next(a)]             # consumer A is suspended after two elements
+        b = list(gen(o))                       # consumer B runs to the end
+        rest = list(a)                         # A resumes
+        c = list(gen(o))                       # a later consumer
+
+        rec_seen = []
+
+        @inference_state_method_generator_cache()
+        def selfref(obj):
+            yield 'x'
+            rec_seen.append(list(selfref(obj)))   # a definition that reaches itself
+            yield 'y'
+        d = list(selfref(o))
+        return {'A': first + rest, 'B': b, 'C': c, 'produced': produced, 'selfref': d, 'inner': rec_seen}
+    out = run_real(scenario)
+    return {}, out
+
+
+_gen_cache = Contract(
+    id='C15.inference_state_method_generator_cache.step', prop='C15',
+    clause='memoised generators: every consumer sees the elements in the shared list by index - what another consumer '
+           'produced meanwhile included - and only asks the shared generator at the end of the list; while the generator '
+           'computes, the list ends with the recursion sentinel, so a request that reaches itself stops instead of '
+           'recursing; the cached prefix is never changed',
+    file='jedi/inference/cache.py', qualname='inference_state_method_generator_cache.func.wrapper',
+    region=_region_gen_step,
+    params={'obj': ANY, 'args': ANY, 'kwargs': ANY},
+    free={'cached_lst': Seq(ANY), 'i': INT, 'actual_generator': ANY, 'memo': ANY, 'key': ANY, 'cache': ANY,
+          'function': ANY},
+    names={'next': FnSpec('next', impl=_next_of_generator, assumed=False)},
+    yields=ANY,
+    requires=['0 <= i and i <= len(cached_lst)', 'all(x is not _RECURSION_SENTINEL for x in cached_lst[:i])'],
+    ensures=[
+        # at most one element is handed out per round, and it is the element at the consumer's index in the shared list
+        'len(result) <= 1',
+        'implies(len(result) == 1, len(NEW_cached_lst) > i and result[0] == NEW_cached_lst[i] and NEW_i == i + 1)',
+        # the cached prefix is never changed; the list grows by what the generator produced, by nothing else
+        'NEW_cached_lst[:len(cached_lst)] == cached_lst',
+        'len(NEW_cached_lst) <= len(cached_lst) + 1',
+        # the shared generator is only asked at the END of the list
+        'implies("advance-generator" in EFFECTS, i == len(cached_lst))',
+        'implies(i < len(cached_lst), NEW_cached_lst == cached_lst)',
+        # no sentinel stays behind
+        'implies(len(NEW_cached_lst) > len(cached_lst), NEW_cached_lst[len(cached_lst)] is not _RECURSION_SENTINEL)',
+    ],
+    witness={}, replay=_replay_gen_cache, concrete_only=True, witness_library=[{}],
+    concrete_ensures=[
+        'result["A"] == ["e0", "e1", "e2", "e3"] and result["B"] == result["A"] and result["C"] == result["A"]',
+        'result["produced"] == [0, 1, 2, 3]',
+        'result["selfref"] == ["x", "y"] and result["inner"] == [["x"]]',
+    ],
+    notes='block contract on one round of the loop; the generator and interleaved consumers are abstract',
+)
+
+CONTRACTS = [_push, _pop, _wrapper, _exec_allowed, _goto_import, _memo, _limit, _gen_cache]
 
 
 # ---------------------------------------------------------------- structural: guards in place
@@ -653,6 +758,7 @@ def register(reg):
     import pyvc.types as T
     reg.names['_NO_DEFAULT'] = SV(ANY, z3.Const('_NO_DEFAULT', T.AnySort))
     reg.names['NO_VALUES'] = SV(ANY, z3.Const('NO_VALUES', T.AnySort))
+    reg.names['_RECURSION_SENTINEL'] = SV(ANY, z3.Const('_RECURSION_SENTINEL', T.AnySort))
     NW = Obj('NameW')
     reg.names['unite'] = FnSpec('unite', params=[('iterable', Seq(Seq(NW)))], ret=Seq(NW), pure=True, assumed=True,
                                 note='jedi.common.unite: the union of the given name collections')
